@@ -326,10 +326,12 @@ def tree_targets():
         'objs': lambda: {'a': [objs.Obj(k=1), objs.Obj(k=2, y=0)]},
         'nested': lambda: {'a': [{'b': [{'k': 1}, {'k': 2}]}, {'b': [{'k': 3}]}]},
         'empty': lambda: {'a': []},
+        'three-levels': lambda: {'g': [[[1, {'k': 2}], [3]], [[4]]], 'h': {'p': {'q': {'r': {'k': 1}}}}},
+        'rows-of-dicts': lambda: {'g': [[{'k': 1}, {'k': 2}], [{'k': 3}]]},
     }
 
 
-MUT_PATHS = ['a.*.k', 'a.*.0', 'a.*.b.*.k', 'a.*.n', '*.*.k']
+MUT_PATHS = ['a.*.k', 'a.*.0', 'a.*.b.*.k', 'a.*.n', '*.*.k', 'g.*.*.0', 'g.*.*.*.k', '*.*.*.0', 'h.*.*.*.k', 'g.*.*.k', '*.*.*.*.k', 'g.*.0']
 
 
 def snapshot(v, depth=0):
